@@ -8,7 +8,7 @@ from report import AnalysisError, VERIF
 from pyfront import Repo, canon, calls_in
 from pyutil import rel, params
 from consteval import Ev, fold, Unknown, Raised
-from layout import Enc, Dec, bitfields, byte_ref
+from layout import Enc, Dec, bitfields, byte_ref, fold_field
 import exprnf as X
 
 EXPLANATION = (
@@ -110,6 +110,14 @@ def r1_python_vs_spec(L, repo, spec):
                         wd = ("byte", fd["off"], bool(fd.get("neg")))
                     else:
                         wd = ("unpack", FMT[fd["kind"]], fd["off"], fd["off"] + fd["size"])
+                    if cd is not None and cd != wd and cd[0] == "other" and fd["size"] <= 2:
+                        ok_, info = fold_field(repo, mod, d, msg, fd["off"], fd["size"], FMT[fd["kind"]], bool(fd.get("neg")))
+                        if ok_ is None:
+                            raise AnalysisError("C04: decoder expression of `%s` unclassifiable (%s)" % (fd["name"], info))
+                        L.ob("C04.R1", F, cls + ".parse_msg", "%s: `%s` is decoded from octet %d as %s%s (hand-written decoder folded over all %d octet values)" % (
+                            fn, fd["name"], fd["off"], fd["kind"], " negated" if fd.get("neg") else "", 256 ** fd["size"]),
+                            "equal for all octet values", info, ok_ is True)
+                        continue
                     L.require("C04.R1", F, cls + ".parse_msg", "%s: `%s` is decoded from octet %d as %s%s" % (
                         fn, fd["name"], fd["off"], fd["kind"], " negated" if fd.get("neg") else ""), wd, cd)
             # nothing else in the header
